@@ -12,7 +12,14 @@ SPEC = {
     ],
     # class number = Roles.fclass_code of the field class whose role check is missing
     'known': {'9': 'F07'},
-    'rule': 'one real plugin (NewPlugin over a scripted home chain) per case; role configurations with 4..7 oracles, '
+    'rule': 'round context: every verdict is taken in a randomly drawn round - commit: previous merkle outcome type (none, '
+            'ReportIntervalsSelected .. ReportTransmissionFailed, out of range) x query (empty / retry flag / RMN signatures present / both) x '
+            'RMN enabled or not x discovery processor present or not x contracts initialised or not; execute: previous outcome state '
+            '(none, Unknown, Initialized, GetCommitReports, GetMessages, Filter) x discovery present or not x contracts initialised or not; '
+            'in retry rounds the merkle part is kept empty 3 times in 4 so that the other validators decide; the model uses only the retry flag '
+            'and the presence of the discovery processor (without it the discovery part is judged as absent), any other dependence on the round '
+            'is a mismatch and, for role data, a violated property. '
+            'one real plugin (NewPlugin over a scripted home chain) per case; role configurations with 4..7 oracles, '
             'destination, 2..3 sources and a feed chain that is its own chain / a source / the destination, role shapes '
             'all / random subsets / group without destination / group without feed, rarely destination not configured or '
             'observer without peer id; observation = conformant filling (nothing / some / every field the observer may '
@@ -26,7 +33,7 @@ SPEC = {
                 'internal/reader/home_chain.go (no lookup errors other than unknown chain / unknown oracle)',
                 'JSON encoding of observations round-trips the fields validation looks at'],
     'assumptions': ['query, observation and previous outcome are decodable (undecodable ones are rejected before any role check)',
-                    'both plugins run with their discovery processor (NewPlugin always creates it)'],
+                    'a plugin without discovery processor neither validates nor uses the discovery part (Plugin.Outcome guards it the same way)'],
     'level_text': 'Proof: Coq theorems over the executable model of commit/execute Plugin.ValidateObservation as wired: the verdict is '
                   'exactly (observer known, destination configured, role-independent well-formedness, every field outside the recorded '
                   'classes about a chain the observer reads); one reject theorem per checked field class (merkle roots, on-ramp and off-ramp '
